@@ -17,7 +17,7 @@ import numpy as np
 from scipy import sparse
 
 from vlib import graphs
-from vlib.cases import Case, Sub, call as _call, evaluate as _evaluate
+from vlib.cases import Case, Sub, call as _call0, evaluate as _evaluate
 from vlib.core import (enc_csr, enc_list, enc_listlist, enc_bool, enc_ratlist, dec_list, dec_ratlist, _exact,
                        ToolFailure)
 
@@ -40,6 +40,11 @@ ASSUMPTIONS = ['np.argsort returns a sorting permutation (label vectors compared
                'the Louvain/Leiden kernels, the propagation sweeps, PageRank and np.random are parameters of the '
                'model (their outputs are recorded and replayed), they belong to C06/C13/C04',
                'a node "without outgoing edge" is read as a node of zero out-weight (explicit zeros count as no edge)']
+
+
+def _call(f):
+    """ValueError / IndexError are refusals the models know; anything else is a failure of the tooling."""
+    return _call0(f, errors=(ValueError, IndexError))
 
 
 # ---------------------------------------------------------------------------------------------
@@ -157,14 +162,14 @@ class Recorder:
         o_opt = est._optimize
         o_pre = est._pre_processing
 
-        def opt_(labels, adjacency, ow, iw):
+        def opt_(labels, *a, **k):
             lab_in = np.asarray(labels).copy()
-            res = o_opt(labels, adjacency, ow, iw)
+            res = o_opt(labels, *a, **k)
             self.levels.append((lab_in, np.asarray(res[0]).copy(), float(res[1])))
             return res
 
-        def pre_(input_matrix, force_bipartite):
-            res = o_pre(input_matrix, force_bipartite)
+        def pre_(*a, **k):
+            res = o_pre(*a, **k)
             self.index = np.asarray(res[4]).copy()
             self.n = res[0].shape[0]
             return res
@@ -173,8 +178,8 @@ class Recorder:
         if hasattr(est, '_optimize_refine'):
             o_ref = est._optimize_refine
 
-            def ref_(labels, labels_refined, adjacency, ow, iw):
-                res = o_ref(labels, labels_refined, adjacency, ow, iw)
+            def ref_(*a, **k):
+                res = o_ref(*a, **k)
                 self.refined.append(np.asarray(res).copy())
                 return res
             est._optimize_refine = ref_
